@@ -20,7 +20,7 @@ def cell(s, n):
 def main():
     rows = []
     bad = []
-    for d in sorted(glob.glob(os.path.join(HERE, 'seeded', '*'))):
+    for d in sorted(x for x in glob.glob(os.path.join(HERE, 'seeded', '*')) if os.path.isdir(x)):
         name = os.path.basename(d)
         try:
             m = json.load(open(os.path.join(d, 'meta.json')))
